@@ -1,8 +1,8 @@
 (* C01 - Control flow and variables determine exactly which rows run, and in what order.
    SPEC: StmtSpec.exec (the sequential reading).  MODEL: Stmt.next (StmtIterator::next_with_context)
    driven to the end.  Property theorems only; proofs in proofs/StmtRefine.v, StmtCorollaries.v. *)
-From DTR Require Import Prelude I64 Ast FramedMap Parser Bind Eval Stmt StmtSpec StmtSpecE Iter ExpandSpec WfSpec RunSpec.
-From DTR.proofs Require Import FramedMapProof StmtRefine StmtRefineE StmtCorollaries AfterErrorProof IterLogProof NoPanicProof RunRefine.
+From DTR Require Import Prelude I64 Ast FramedMap Parser Bind Eval Stmt StmtSpec StmtSpecE Iter ExpandSpec WfSpec RunSpec RunSpecE.
+From DTR.proofs Require Import FramedMapProof StmtRefine StmtRefineE StmtCorollaries AfterErrorProof IterLogProof NoPanicProof RunRefine RunRefineE.
 Local Open Scope Z_scope.
 
 (* For EVERY program, context, evaluation functions and row handler (the handler stands for all
@@ -69,6 +69,33 @@ Theorem C01_sequential_reading_is_the_run :
  exists (fuel : nat) (st' : istate),
  collect G DE D w_default tc fuel n st0 = (map view_of_seen sn, Some st') /\ i_log st' = lg.
 Proof. exact T_sequential_reading_refines_run. Qed.
+
+(* THEOREM T THROUGH ERRORS - the same for a caller that keeps calling next() after error items, until its n calls
+   are used up or None comes (collect_e), against RunSpecE.run_spec_e: the sequential reading in which a driver error
+   or an unusable answer costs one call and the run goes on with the REST of the row's expansion, and an evaluation
+   error of the program costs one call, makes no driver call, and the reading goes on behind the failing statement
+   (StmtSpecE.exec_e). *)
+Theorem C01_run_through_errors_is_the_sequential_reading :
+ forall (G : gen) (DE : Type) (D : driver DE) (w_default : bool) (tc : testcase)
+ (fuel n : nat) (st0 : istate) (items : list (item_view DE)) (st' : istate),
+ try_new DE D tc = NewOk DE st0 ->
+ (n >= 1)%nat ->
+ collect_e G DE D w_default tc fuel n st0 = (items, Some st') ->
+ exists (fuel' : nat) (sn : list (seen DE)) (lg : list call),
+ seen_of_e DE (run_spec_e G DE D w_default tc fuel' n st0) = Some (sn, lg) /\
+ items = map view_of_seen sn /\ i_log st' = lg.
+Proof. exact T_run_refines_sequential_reading_through_errors. Qed.
+
+Theorem C01_sequential_reading_through_errors_is_the_run :
+ forall (G : gen) (DE : Type) (D : driver DE) (w_default : bool) (tc : testcase) (width : nat),
+ wf_tc tc width ->
+ forall (fuel' n : nat) (st0 : istate) (sn : list (seen DE)) (lg : list call),
+ try_new DE D tc = NewOk DE st0 ->
+ (n >= 1)%nat ->
+ seen_of_e DE (run_spec_e G DE D w_default tc fuel' n st0) = Some (sn, lg) ->
+ exists (fuel : nat) (st' : istate),
+ collect_e G DE D w_default tc fuel n st0 = (map view_of_seen sn, Some st') /\ i_log st' = lg.
+Proof. exact T_sequential_reading_refines_run_through_errors. Qed.
 
 
 (* not at all when n <= 0 *)
@@ -228,3 +255,5 @@ Print Assumptions C01_after_failing_while_condition.
 Print Assumptions C01_error_inside_loop_keeps_the_loop_open.
 Print Assumptions C01_iterator_refines_sequential_reading_through_errors.
 Print Assumptions C01_sequential_reading_refines_iterator_through_errors.
+Print Assumptions C01_run_through_errors_is_the_sequential_reading.
+Print Assumptions C01_sequential_reading_through_errors_is_the_run.
